@@ -85,7 +85,7 @@ class Run:
         return r
 
     def gen_replay(self, module, cfg, adapter, adapter_args=None, env=None, timeout=900, workers=8,
-                   simulate=None, depth=None, name=None, replay_workers=None, seed=None, max_cases=None):
+                   simulate=None, depth=None, name=None, replay_workers=None, seed=None, max_cases=None, keep=None):
         """(B) TLC generates behaviours / cases as JSON lines; each is replayed into the real code."""
         eng = replay.Engine(adapter, adapter_args, workers=replay_workers)
         try:
@@ -100,6 +100,8 @@ class Run:
             raise tlc.MachineryError('replay machinery error: %s' % tot['errors'][0])
         self.states += r.distinct
         self.transitions += r.generated
+        if keep is not None:
+            tot['div'] = [d for d in tot['div'] if keep(d)]
         self.absorb(tot)
         self.phases.append({'phase': 'gen_replay', 'name': name or cfg, 'module': module, 'cfg': cfg, 'env': env or {},
                             'tlc_distinct': r.distinct, 'tlc_generated': r.generated, 'cases': tot['cases'],
